@@ -168,6 +168,38 @@ fn pipeline(sink: &mut Sink, src: &str, origin: &str, evaluate: bool, nontrivial
                 }
                 Err(_) => {}
             }
+            // token stream (what the web editor's tokenize entry point hands out): positions inside the text
+            match guard(|| {
+                blots_core::parser::get_tokens(src).map(|ts| {
+                    ts.iter()
+                        .map(|t| match t {
+                            blots_core::parser::Token::Start { pos, .. } | blots_core::parser::Token::End { pos, .. } => pos.pos(),
+                        })
+                        .collect::<Vec<usize>>()
+                })
+            }) {
+                Ok(Ok(positions)) => {
+                    if let Some(bad) = positions.iter().find(|p| **p > src.len() || !src.is_char_boundary(**p)) {
+                        let mut c = case.clone();
+                        c["position"] = json!(bad);
+                        sink.viol("token-position-outside-text", "a token position lies outside the text / inside a character", c);
+                    }
+                }
+                Ok(Err(_)) => {}
+                Err(p) => {
+                    let mut c = case.clone();
+                    c["panic"] = json!(p);
+                    sink.viol(&format!("stage=tokens {}", norm_panic(&p)), "the tokenizer panicked", c);
+                }
+            }
+            // the real wasm format driver (where it can run natively) and its mirror
+            if let Err(e) = crate::rt::format_source_driver(src, None) {
+                if e.starts_with("PANIC") {
+                    let mut c = case.clone();
+                    c["panic"] = json!(e);
+                    sink.viol(&format!("stage=format-driver {}", norm_panic(&e)), "the formatting driver panicked", c);
+                }
+            }
             if let Err(e) = format_source_lib(src, None) {
                 if e.starts_with("PANIC") {
                     let mut c = case.clone();
